@@ -120,7 +120,7 @@ class Controller:
         for job in b.hash_queue.in_flight.values():
             if job.started or slots_free:
                 return False
-        if self.build.rpc_in_flight > 0:
+        if self.build.rpc_in_flight > 0 or self.build.db_waiting > 0:
             return False
         # every running simulated command waits at a gate: a command that got its reply and has
         # not been resumed yet is about to do something (finish, call again), not waiting
@@ -497,6 +497,9 @@ class Build:
         self.commits = 0
         self.thread_delay = None
         self.thread_delays = 0
+        self.db_delay = None
+        self.db_delays = 0
+        self.db_waiting = 0   # tasks inside an injected delay before a transaction
 
     def event(self, type_, **kw):
         self.t += 1
@@ -613,6 +616,29 @@ def install_patches():
         return await orig_run_in_thread(self)
 
     run_mod.ThreadWorker.run_in_thread = run_in_thread
+
+    # Injected delay at another existing suspension point: the acquisition of the database lock
+    # (`async with db`).  Any task may have to wait there whenever another one holds the lock, so a
+    # delay before the acquisition only produces orders of transactions that contention produces
+    # as well.  `cfg["db_delay"] = {"p": probability, "max": seconds, "seed": n}`.
+    from stepup.core.sqlite3 import DBSession
+
+    orig_db_enter = DBSession.__aenter__
+
+    async def db_enter(self):
+        build = _CURRENT["build"]
+        if build is not None and build.db_delay is not None:
+            rng, p, dmax = build.db_delay
+            if rng.random() < p:
+                build.db_delays += 1
+                build.db_waiting += 1
+                try:
+                    await asyncio.sleep(rng.random() * dmax)
+                finally:
+                    build.db_waiting -= 1
+        return await orig_db_enter(self)
+
+    DBSession.__aenter__ = db_enter
     _PATCHED["done"] = True
 
 
@@ -647,6 +673,9 @@ def run_build(cfg=None, ctl=None, monitors=(), driver=None, env=None, timeout=60
     cfg = cfg or {}
     build = Build(ctl, monitors)
     build.drop_cutoff = cfg.get("drop_cutoff", 3)
+    dd = cfg.get("db_delay")
+    if dd:
+        build.db_delay = (random.Random(dd.get("seed", 0)), dd.get("p", 0.2), dd.get("max", 0.003))
     td = cfg.get("thread_delay")
     if td:
         build.thread_delay = (random.Random(td.get("seed", 0)), td.get("p", 0.5), td.get("max", 0.02))
